@@ -2047,17 +2047,25 @@ impl Registry {
             traverse_type(ctx, &self.types, &mut visible_types, ty.name());
         }
 
-        for ty in self.types.values() {
-            if let MetaType::Interface { possible_types, .. } = ty
-                && ty.is_visible(ctx)
-                && !visible_types.contains(ty.name())
-            {
-                for type_name in possible_types.iter() {
-                    if visible_types.contains(type_name.as_str()) {
-                        traverse_type(ctx, &self.types, &mut visible_types, ty.name());
-                        break;
+        // interfaces implemented by a visible type; showing one can make
+        // further types visible, so repeat until nothing is added
+        loop {
+            let visible_before = visible_types.len();
+            for ty in self.types.values() {
+                if let MetaType::Interface { possible_types, .. } = ty
+                    && ty.is_visible(ctx)
+                    && !visible_types.contains(ty.name())
+                {
+                    for type_name in possible_types.iter() {
+                        if visible_types.contains(type_name.as_str()) {
+                            traverse_type(ctx, &self.types, &mut visible_types, ty.name());
+                            break;
+                        }
                     }
                 }
+            }
+            if visible_types.len() == visible_before {
+                break;
             }
         }
 
